@@ -183,7 +183,7 @@ pub fn account(agg: &mut Agg, job: &Job, sub: u64, plan: &Plan, image: &[u8], re
                             cells[sub as usize]
                         } else {
                             agg.inc("cell-pairs", 1);
-                            let pr = pairs[sub as usize - cells.len()];
+                            let (pr, _) = pairs[sub as usize - cells.len()];
                             if e.off == fields[pr[0].0].off { pr[0] } else { pr[1] }
                         };
                         let fd = &fields[fi];
@@ -385,7 +385,7 @@ pub fn run_worker(a: WorkerArgs) {
                                 }
                             }
                         }
-                        if matches!(plan.mode.as_str(), "reader" | "load" | "use" | "mem" | "threads") && plan.base.len() <= 64 << 10 {
+                        if matches!(plan.mode.as_str(), "reader" | "load" | "use" | "mem" | "threads") && plan.base.len() <= 1 << 20 {
                             if recent.len() >= 2 {
                                 recent.pop_front();
                             }
